@@ -171,13 +171,20 @@ void h_iterate(void) {
   CANARY();
 }
 
-/* bounded stand-in: rep of at most BAT_B bytes (<= (BAT_B-12)/2 records), record loop unwound */
-#define BAT_B 24
+/* bounded stand-in: rep of at most BAT_B bytes, record loop unwound.  The buffer is a heap
+ * object of exactly in_n bytes (one constant-size allocation per length, so out-of-bounds
+ * reads past rep.size are still detected) */
+#define BAT_B 18
+#define BAT_CASE(k) case k: buf = malloc(k); break;
 void h_iterate_b(void) {
-  ldb_batch_t b; ldb_handler_t h; int r;
+  ldb_batch_t b; ldb_handler_t h; int r; uint8_t *buf = NULL;
   IN_SIZE(in_n); IN_U64(in_number);
-  IN_BUF(buf, in_n); SNAP_BUF(buf, in_n);
   ASSUME(in_n <= BAT_B);
+  switch (in_n) {
+    BAT_CASE(0) BAT_CASE(1) BAT_CASE(2) BAT_CASE(3) BAT_CASE(4) BAT_CASE(5) BAT_CASE(6) BAT_CASE(7) BAT_CASE(8) BAT_CASE(9)
+    BAT_CASE(10) BAT_CASE(11) BAT_CASE(12) BAT_CASE(13) BAT_CASE(14) BAT_CASE(15) BAT_CASE(16) BAT_CASE(17) BAT_CASE(18)
+  }
+  ASSUME(buf != NULL);
   b.rep.data = buf; b.rep.size = in_n; b.rep.alloc = in_n;
   h.state = NULL; h.number = in_number; h.put = stub_put; h.del = stub_del;
   g_mode = 0; g_h = &h; g_mt = NULL; g_seq0 = 0;
@@ -186,7 +193,6 @@ void h_iterate_b(void) {
   CHECK(h.number == in_number && h.state == NULL, "batch_iterate: the handler object itself is not written");
   CANARY();
 }
-
 
 /* ==================================================================== enc */
 /* header: bytes 0..7 = LE64 sequence, bytes 8..11 = LE32 count */
@@ -269,7 +275,9 @@ void h_reset(void) {
                     ((uint64_t)(OLD_B(b, 4) | (OLD_B(b, 5) << 8) | (OLD_B(b, 6) << 16) | (OLD_B(b, 7) << 24)) << 32))
 #define REC_PUT_LEN(k, v) (1 + V32_SIZE(k) + (k) + V32_SIZE(v) + (v))
 #define REC_DEL_LEN(k) (1 + V32_SIZE(k) + (k))
-#define BATCH_PRE(b) (__CPROVER_rw_ok(b, sizeof(*(b))) && BUF_PRE(&(b)->rep) && BUF_KEEP_PRE(&(b)->rep) && (b)->rep.size >= 12)
+/* count + 1 is computed in int: the header count must be below INT_MAX (see report: signed overflow otherwise) */
+#define BATCH_PRE(b) (__CPROVER_rw_ok(b, sizeof(*(b))) && BUF_PRE(&(b)->rep) && BUF_KEEP_PRE(&(b)->rep) && (b)->rep.size >= 12 && \
+                      HDR_COUNT((b)->rep.data) != 2147483647)
 #define KV_OK(x, b) (__CPROVER_r_ok(x, sizeof(*(x))) && (x)->size <= VERIF_U32_MAX && SLICE_OK(x) && \
                      ((x)->size == 0 || !__CPROVER_same_object((x)->data, (b)->rep.data)) && BUF_CONTENT_PRE(&(b)->rep, (x)->size))
 void c_batch_put(ldb_batch_t *batch, const ldb_slice_t *key, const ldb_slice_t *value)
@@ -302,14 +310,14 @@ __CPROVER_ensures(g_bcontent ==> (g_bk < key->size ==> batch->rep.data[__CPROVER
 #define H_PUT(fname, cap, kvcap, content) void fname(void) { \
   g_bcontent = (content); \
   MK_BATCH(b, cap); MK_KV(key, in_kn, kb, kvcap); MK_KV(val, in_vn, vb, kvcap); \
-  ASSUME(in_size >= 12); \
+  ASSUME(in_size >= 12 && HDR_COUNT(b.rep.data) != 2147483647); \
   ldb_batch_put(&b, &key, &val); \
   if (in_alloc <= 64 && in_kn <= 64 && in_vn <= 64) { CANARY(); } \
 }
 #define H_DEL(fname, cap, kvcap, content) void fname(void) { \
   g_bcontent = (content); \
   MK_BATCH(b, cap); MK_KV(key, in_kn, kb, kvcap); \
-  ASSUME(in_size >= 12); \
+  ASSUME(in_size >= 12 && HDR_COUNT(b.rep.data) != 2147483647); \
   ldb_batch_del(&b, &key); \
   if (in_alloc <= 64 && in_kn <= 64) { CANARY(); } \
 }
